@@ -71,10 +71,25 @@ def run_worker_subprocess(pid, cfg, tier, tmpdir, timeout_s):
     env["VERIF_PARTIAL_OUT"] = out + ".partial"
     t0 = time.time()
     try:
-        p = subprocess.run(cmd, cwd=ROOT, env=env, capture_output=True, text=True, timeout=timeout_s)
+        for attempt in range(3):
+            p = subprocess.run(cmd, cwd=ROOT, env=env, capture_output=True, text=True,
+                               timeout=max(30, timeout_s - (time.time() - t0)))
+            if os.path.exists(out) or p.returncode >= 0:
+                break
+            # the worker was killed by a signal (a crash inside the native solver library): run it again
         if os.path.exists(out):
             with open(out) as f:
                 res = json.load(f)
+        elif p.returncode < 0:
+            # persistent crash of the solver process: nothing was decided for this configuration (not a finding)
+            res = {"config": cfg["id"], "paths": [], "violations": [], "harness_errors": [], "inconclusive": []}
+            if os.path.exists(out + ".partial"):
+                try:
+                    with open(out + ".partial") as f:
+                        res = json.load(f)
+                except Exception:
+                    pass
+            res.setdefault("inconclusive", []).append({"path": "*", "why": "worker killed by signal %d three times (solver crash)" % -p.returncode})
         else:
             res = {"config": cfg["id"], "paths": [], "violations": [], "inconclusive": [],
                    "harness_errors": ["worker produced no result (rc=%s): %s" % (p.returncode, (p.stderr or "")[-2000:])]}
